@@ -24,13 +24,15 @@ type c12Case struct {
 }
 
 func c12Dom(thorough bool) []float32 {
-	es := []int{-10, 0, 1, 20}
+	es := []int{-10, -3, 0, 1, 5, 10, 20}
+	ms := []float64{1, 1.25, 1.999}
 	if thorough {
-		es = []int{-10, -3, 0, 1, 5, 10, 20}
+		es = []int{-20, -10, -5, -3, -1, 0, 1, 2, 3, 5, 10, 20}
+		ms = []float64{1, 1.25, 1.5, 1.999}
 	}
 	var d []float32
 	for _, e := range es {
-		for _, m := range []float64{1, 1.25, 1.999} {
+		for _, m := range ms {
 			d = append(d, float32(math.Ldexp(m, e)))
 		}
 	}
@@ -44,7 +46,7 @@ func init() {
 	mc.Register(&mc.Check{
 		ID:    "C12",
 		Level: "exploration",
-		Rule: "Cartesian product of viewBox width/height and target dx/dy over {2^e*m}, 3 viewBox origins, 4x4 alignment fractions, for AspectMeet and AspectSlice; " +
+		Rule: "Cartesian product of viewBox width/height and target dx/dy over {2^e*m} (21 values quick, 48 thorough), 3 viewBox origins, 4x4 alignment fractions, for AspectMeet and AspectSlice; " +
 			"every result compared with an exact (big.Rat / float64) reference fit. An outcome is the tuple (which dimension is constrained, sign of slack in x, sign of slack in y, method); " +
 			"non-trivial = aspect ratios differ so that slack or overflow is non-zero in one dimension",
 		Assumptions: []string{"linux/amd64 float32 semantics", "tolerance 2^-18 relative to max(target side, result extent) per axis"},
@@ -77,7 +79,7 @@ func c12Run(w *mc.W, u int) {
 					for _, ay := range c12Align {
 						for _, slice := range []bool{false, true} {
 							cs := c12Case{VB: [4]uint32{f32b(vb.MinX), f32b(vb.MinY), f32b(vb.MaxX), f32b(vb.MaxY)},
-								DX: f32b(dx), DY: f32b(dy), AX: f32b(ax), AY: f32b(ay), Slice: slice, Exact: !w.Thorough || (u%7 == 0)}
+								DX: f32b(dx), DY: f32b(dy), AX: f32b(ax), AY: f32b(ay), Slice: slice, Exact: u%5 == 0}
 							c12Check(w, &cs)
 						}
 					}
